@@ -1,0 +1,16 @@
+//go:build verif
+
+package rtpconn
+
+import "github.com/pion/rtcp"
+
+// NACKPairs calls gotNACK with generic NACK pairs (packet id and the bitmap
+// of the following 16 numbers), as a receiver's RTCP feedback carries them.
+func (v *VerifTrack) NACKPairs(ids, bitmaps []uint16) [][]byte {
+	var pairs []rtcp.NackPair
+	for i := range ids {
+		pairs = append(pairs, rtcp.NackPair{PacketID: ids[i], LostPackets: rtcp.PacketBitmap(bitmaps[i])})
+	}
+	gotNACK(v.down, &rtcp.TransportLayerNack{Nacks: pairs})
+	return v.take()
+}
